@@ -3,7 +3,7 @@ CONSTANTS
   Minerals = {a, b}
   Files = {f1}
   Postfixes = {}
-  Configs <- FlowConfigs
+  Configs <- FaultConfigs
   Seeds = {1}
   Textures = {"random"}
   Flows = {"ss_xz"}
